@@ -769,7 +769,7 @@ pub fn run(ctx: &mut Ctx) -> Result<(), Violation> {
         });
         ctx.stage(&format!("diagrams-all-functions-k{}", k), true, r)?;
     }
-    let cases = ctx.tier.pick(20_000, 2_000_000);
+    let cases = ctx.tier.cases(20_000, 2_000_000);
     let r = par_random(ctx, "random-diagrams", cases, 60, |tape, st| {
         let mut t = Tape::new(tape);
         let f = gen_fun(&mut t, 8, 14);
@@ -802,7 +802,7 @@ pub fn run(ctx: &mut Ctx) -> Result<(), Violation> {
     });
     ctx.stage("diagrams-with-names-needing-escaping", true, r)?;
 
-    let cases = ctx.tier.pick(30_000, 2_000_000);
+    let cases = ctx.tier.cases(30_000, 2_000_000);
     let cli_every = ctx.tier.pick(60u64, 100u64);
     let r = par_random(ctx, "formulas", cases, 300, |tape, st| {
         let mut t = Tape::new(tape);
